@@ -102,3 +102,15 @@ Proof. reflexivity. Qed.
 
 Lemma mq_shortcut_refuted : atomic_lenient lscript_Property_cssText__mediaQuery_ = false.
 Proof. vm_compute. reflexivity. Qed.
+
+(* the first theorem carried to the refined scripts through `erase` (lexec_erase): for every setter but the open finding,
+   no execution of the refined script - whatever its commit flag did - writes to the object and then raises *)
+Lemma lsetters_raise_unchanged_partial :
+  forall name ls, In (name, ls) lsetters -> open_finding name = false ->
+    forall ro fin ws f, lexec ro ls fin (ws, f, ORaise) -> ws = [].
+Proof.
+  intros name ls Hin Hopen ro fin ws f He.
+  assert (In (name, erase ls) setters) as Hs.
+  { rewrite <- setters_are_erased. apply (in_map (fun p : string * lscript => (fst p, erase (snd p))) _ _ Hin). }
+  exact (setters_unchanged_partial name (erase ls) Hs Hopen ro (ws, ORaise) (lexec_erase _ _ _ _ He) eq_refl).
+Qed.
